@@ -12,11 +12,12 @@ Open Scope list_scope.
    guard, advance the guard time, step the parent, append, trim, counter, skip test, union *)
 Lemma win_step_order_ok : win_step_order = [0; 1; 2; 3; 4; 5; 6; 7].
 Proof. reflexivity. Qed.
-(* TransformedDStream._step: guard, step the parent, set the guard time, apply the function;
+(* TransformedDStream._step: guard, step the parent, set the guard time, return while the parent's RDD is None,
+   apply the function;
    StatefulDStream._step: guard, step the parent, set the guard time, cogroup, mapValues(convert_fn), publish;
    convert_fn passes the last element of the state list *)
 Lemma other_step_orders_ok :
-  tr_step_order = [0; 1; 2; 3] /\ st_step_order = [0; 1; 2; 3; 4; 5] /\ st_state_index_from_end = 1.
+  tr_step_order = [0; 1; 2; 3; 4] /\ st_step_order = [0; 1; 2; 3; 4; 5] /\ st_state_index_from_end = 1.
 Proof. repeat split; reflexivity. Qed.
 
 (* ---------- list update ---------- *)
@@ -307,7 +308,7 @@ Proof.
   destruct (all_kv _); reflexivity.
 Qed.
 Lemma trans_post_time f t pr n : ntime (fst (fst (trans_post f t pr n))) = t.
-Proof. unfold trans_post. destruct (apply_tfun f t pr) as [[r lg]|e]; reflexivity. Qed.
+Proof. unfold trans_post. destruct (is_none_rdd pr); [reflexivity|]. destruct (apply_tfun f t pr) as [[r lg]|e]; reflexivity. Qed.
 Lemma src_pop_time n : ntime (src_pop n) = ntime n.
 Proof. unfold src_pop. destruct (nqueue n); reflexivity. Qed.
 
@@ -377,27 +378,37 @@ Qed.
 (* ---------- k capturing consumers of node p, stepped after p ---------- *)
 Definition obs_of (r : rdd) : option (list val) := match r with RNone => None | _ => Some (collect r) end.
 
+Lemma capture_post j t r ns :
+  trans_post (FCapture j) t r ns =
+  (if is_none_rdd r then set_time t ns else set_rdd RNone (set_time t ns),
+   if is_none_rdd r then [] else [(t, j, obs_of r)], None).
+Proof. unfold trans_post. destruct r; reflexivity. Qed.
+
 Lemma consumers_steps F g t p ndp nsp : forall k base j0 st,
   (forall j, (j < k)%nat -> nth_error g (base + j) = Some (Trans (FCapture (Z.of_nat (j0 + j))) p)) ->
   nth_error g p = Some ndp -> nth_error (gnodes st) p = Some nsp -> t <= ntime nsp ->
   (forall j, (j < k)%nat -> exists ns, nth_error (gnodes st) (base + j) = Some ns /\ ntime ns < t) ->
   exists st',
     tick_nodes (S (S F)) g (seq base k) t st = (st', None) /\
-    glog st' = glog st ++ map (fun j => (t, Z.of_nat (j0 + j), obs_of (nrdd nsp))) (seq 0 k) /\
+    glog st' = glog st ++ (if is_none_rdd (nrdd nsp) then []
+                           else map (fun j => (t, Z.of_nat (j0 + j), obs_of (nrdd nsp))) (seq 0 k)) /\
     (forall i, (i < base \/ base + k <= i)%nat -> nth_error (gnodes st') i = nth_error (gnodes st) i) /\
     length (gnodes st') = length (gnodes st).
 Proof.
   induction k as [|k IH]; intros base j0 st Hg Hgp Hsp Htp Hns.
-  - exists st. cbn. rewrite app_nil_r. auto.
+  - exists st. cbn. destruct (is_none_rdd (nrdd nsp)); rewrite app_nil_r; auto.
   - destruct (Hns 0%nat ltac:(lia)) as (ns & Hb & Hbt). rewrite Nat.add_0_r in Hb.
     pose proof (Hg 0%nat ltac:(lia)) as Hg0. rewrite !Nat.add_0_r in Hg0.
     cbn [seq tick_nodes].
     rewrite (step_trans_go F g base t st _ p ns ndp nsp Hg0 Hb Hbt Hgp Hsp Htp).
-    unfold trans_post. cbn [apply_tfun].
-    set (n2 := set_rdd RNone (set_time t ns)).
-    set (st1 := add_log _ (put base n2 st)).
+    rewrite capture_post. cbv beta iota.
     assert (Hbp : base <> p).
     { intros ->. rewrite Hb in Hsp. inversion Hsp; subst. lia. }
+    set (n2 := if is_none_rdd (nrdd nsp) then set_time t ns else set_rdd RNone (set_time t ns)).
+    set (lg := if is_none_rdd (nrdd nsp) then [] else [(t, Z.of_nat j0, obs_of (nrdd nsp))]).
+    assert (Elg : lg = if is_none_rdd (nrdd nsp) then [] else [(t, Z.of_nat j0, obs_of (nrdd nsp))]) by reflexivity.
+    clearbody lg.
+    set (st1 := add_log lg (put base n2 st)).
     destruct (IH (S base) (S j0) st1) as (st' & E & Hlog & Hoth & Hlen).
     + intros j Hj. specialize (Hg (S j) ltac:(lia)).
       now rewrite <- !Nat.add_succ_comm in Hg.
@@ -409,6 +420,7 @@ Proof.
       rewrite nth_put_neq by lia. now rewrite Nat.add_succ_comm.
     + exists st'. split; [exact E|]. split; [|split].
       * rewrite Hlog. unfold st1, add_log; cbn [glog]. rewrite put_log, <- app_assoc. f_equal.
+        rewrite Elg. destruct (is_none_rdd (nrdd nsp)); [reflexivity|].
         cbn [seq map app]. rewrite Nat.add_0_r. f_equal.
         rewrite <- seq_shift, map_map. apply map_ext. intros j. now rewrite Nat.add_succ_comm.
       * intros i Hi. rewrite Hoth by lia. unfold st1, add_log; cbn [gnodes]. rewrite nth_put_neq by lia. reflexivity.
@@ -456,11 +468,12 @@ Proof.
 Qed.
 
 (* what k consumers of a stream log, tick after tick, when R n is the stream's RDD after n intervals
-   (n = intervals already elapsed) *)
+   (n = intervals already elapsed): nothing while the stream has not produced an RDD, then one capture each *)
 Fixpoint cons_log (R : nat -> rdd) (k : nat) (n : nat) (ts : list Z) : list logentry :=
   match ts with
   | [] => []
-  | t :: ts' => map (fun j => (t, Z.of_nat j, obs_of (R (S n)))) (seq 0 k) ++ cons_log R k (S n) ts'
+  | t :: ts' => (if is_none_rdd (R (S n)) then [] else map (fun j => (t, Z.of_nat j, obs_of (R (S n)))) (seq 0 k))
+                ++ cons_log R k (S n) ts'
   end.
 
 (* ---------- a stream nd1 on a queue source (streams 0 and 1), any streams registered after them ----------
@@ -562,7 +575,8 @@ Qed.
 Lemma cinv_tick n T t st :
   CInv n T st -> T < t ->
   exists st', tick g t st = (st', None) /\ CInv (S n) t st' /\
-    glog st' = glog st ++ map (fun j => (t, Z.of_nat j, obs_of (R1 (S n)))) (seq 0 k).
+    glog st' = glog st ++ (if is_none_rdd (R1 (S n)) then []
+                           else map (fun j => (t, Z.of_nat j, obs_of (R1 (S n)))) (seq 0 k)).
 Proof.
   intros (HI & Hle & Hlen) Ht.
   pose proof (tick_nodes_times_le (length g) g t (seq 0 (length g)) st
@@ -607,7 +621,8 @@ Proof.
     + rewrite Hlog', Hlog1, <- app_assoc. reflexivity.
 Qed.
 
-(* no tick raises; every consumer captures, at every tick, exactly once, stream 1's RDD of that interval *)
+(* no tick raises; once stream 1 has produced an RDD every consumer captures, at every tick, exactly once, stream 1's
+   RDD of that interval; before that the consumers' functions are not called *)
 Lemma consumers_log ts :
   increasing 0 ts ->
   run_graph g ts = (final g ts, map (fun _ => None) ts) /\ glog (final g ts) = cons_log R1 k 0 ts.
